@@ -9,7 +9,9 @@ real Scrapli / AsyncScrapli (the (class, kwargs) the factory calls, and the buil
 and of model/Heap.v against real connections under the same op histories (vm_compute), + two
 property oracles on the implementation that do not use the model, + the behaviour oracle of
 harness/c18_iso.py (construct / mutate / USE interleavings; every connection's answers against the same
-connection alone, each run in a clean process; shared containers of classes / modules snapshotted)."""
+connection alone, each run in a clean process; shared containers of classes / modules snapshotted), + the argument-effect
+observer and the transport-name spellings of harness/c18_args.py (every constructor keyword of every core driver class read
+back from the slot where it takes effect and from no other; driver stack = transport stack)."""
 import asyncio  # noqa: F401  (async functions below are only objects, never awaited)
 import contextlib
 import copy
@@ -20,6 +22,7 @@ import types
 import warnings
 
 from . import common
+from . import c18_args as A
 from .common import coq_list
 
 LEVEL = "proof"
@@ -257,7 +260,9 @@ class World:
         malformed = {
             "host": [""], "port": ["22", 2.5], "auth_strict_key": [0, "no"], "auth_bypass": [0, ""],
             "ssh_config_file": [0], "ssh_known_hosts_file": [1.5], "on_init": ["notcallable", 0], "on_open": [0, ""],
-            "on_close": ["x"], "transport": ["ssh2", "bogus", "", "System"], "channel_log_mode": ["bogus", ""],
+            "on_close": ["x"], "transport": ["ssh2", "bogus", "", "System", "AsyncSSH", "TELNET", " asynctelnet", "Paramiko", "asyncssh ", "SSH2",
+                                              "AsyncTelnet", "\tsystem"],
+            "channel_log_mode": ["bogus", ""],
             "bogus_kwarg": [1, None], "comms_prompt_pattern": ["^y#$"],
         }
         return valid, malformed
@@ -350,6 +355,7 @@ NETWORK_ONLY = {"auth_secondary", "failed_when_contains", "textfsm_platform", "g
 # "takes effect" is read back literally for these (no post-processing between argument and attribute)
 LITERAL = set(GETTERS) - {"channel_log_mode", "transport_options", "failed_when_contains"}
 SSH_CONFIG_TRANSPORTS = {"paramiko", "asyncssh", "ssh2"}
+CHANNEL_PATTERNS = ("auth_telnet_login_pattern", "auth_password_pattern", "auth_passphrase_pattern")
 
 
 def same_value(a, b):
@@ -472,6 +478,14 @@ def oracle(w, case, res):
         return fails, exp
     _, cls, dkw = exp
     direct = run_direct(cls, dkw)
+    # a driver whose stack (sync / asyncio) differs from its transport's is never returned, on either route; a core transport
+    # name that is not written exactly is rejected with a scrapli error or gives a consistent object
+    fails += A.stack_failures(res["obj"], "the factory") + A.stack_failures(direct["obj"], "%s(**kwargs)" % cls.__name__)
+    if A.is_spelling(dkw.get("transport")):
+        for how, r in (("the factory", res), ("%s(**kwargs)" % cls.__name__, direct)):
+            if r["exc"] is not None and not isinstance(r["excobj"], ScrapliException) and sorted(k for k, _ in case["kw"]) == ["host", "transport"] \
+                    and dkw.get("host"):
+                fails.append("%s: transport=%r rejected with %s, not a scrapli error" % (how, dkw["transport"], r["exc"]))
     if direct["exc"] is not None or res["exc"] is not None:
         if direct["exc"] != res["exc"]:
             fails.append("factory %s but direct %s(**kwargs) %s" % (
@@ -508,6 +522,17 @@ def oracle(w, case, res):
             ok = True
         if not ok:
             fails.append("argument %s=%r did not take effect: the connection has %r" % (k, v, got))
+    # arguments that only travel through **kwargs: read back from the channel arguments ('' / None = the channel's default);
+    # a supplied value lands in its own field, a field that was not supplied never holds another argument's value
+    sup = {k: w.val(s) for k, s in case["kw"]}
+    pats = {k: sup[k] for k in CHANNEL_PATTERNS if isinstance(sup.get(k), str) and sup[k]}
+    for k in CHANNEL_PATTERNS:
+        got = getattr(fo._base_channel_args, k, None)
+        if k in pats and not same_value(got, pats[k]):
+            fails.append("argument %s=%r did not take effect: the channel arguments have %r" % (k, pats[k], got))
+        elif k not in pats and k not in exp[2] and any(got == v for v in pats.values()):
+            fails.append("argument %s was not supplied but the channel arguments have %r there, the value of %s" % (
+                k, got, sorted(n for n, v in pats.items() if v == got)))
     return fails, exp
 
 
@@ -678,6 +703,24 @@ def singles(w, valid):
                         kw.append(["transport", "asynctelnet" if is_async else "system"])
                     kw.append([n, v])
                     out.append({"async": is_async, "platform": p, "platform_is_str": True, "variant_given": False, "variant": None, "kw": kw})
+    return out
+
+
+def spelling_cases(w):
+    """core transport names not written exactly (case variants, padded), on both factories, core and community platforms: a spelled
+    asyncio name on the sync factory and the reverse included"""
+    out = []
+    plats = ["cisco_iosxe", "juniper_junos", "scrapli_networkdriver", "synth_gen", "arista_eos", "synth_net", "cisco_nxos", "cisco_iosxr"]
+    n = 0
+    for name in A.CORE_TRANSPORT_NAMES:
+        for sp in A.spellings(name):
+            for is_async in (False, True):
+                p = plats[n % len(plats)]
+                n += 1
+                if p not in CORE and p not in w.community:
+                    p = "cisco_iosxe"
+                out.append({"async": is_async, "platform": p, "platform_is_str": True, "variant_given": False, "variant": None,
+                            "kw": [["host", "h"], ["transport", sp]]})
     return out
 
 
@@ -1043,6 +1086,11 @@ def run(rep):
         sg = [c for i, c in enumerate(sg) if (c["platform"] in ("cisco_iosxe", "synth_net", "synth_gen")) or i % 7 == rep.seed % 7]
     for c in sg:
         cases.append(("single", c))
+    sp = spelling_cases(w)
+    if not thorough:
+        sp = [c for i, c in enumerate(sp) if i % 3 == rep.seed % 3 or c["kw"][1][1] in ("AsyncSSH", "System", " asynctelnet", "TELNET")]
+    for c in sp:
+        cases.append(("spelling", c))
     for _ in range(6000 if thorough else 700):
         cases.append(("valid", gen_case(w, rng, valid, malformed, "valid")))
     for _ in range(1500 if thorough else 200):
@@ -1132,6 +1180,13 @@ def run(rep):
         # an obligation / the translator broke: focused search over the single-argument product
         search_near(w, rep, [], valid, sweep=singles(w, valid))
 
+    # ---- argument-effect observer + transport-name spellings on both routes (harness/c18_args.py, oracle only) ----
+    if not polluted:
+        try:
+            A.run(w, rep, thorough)
+        except Exception as e:  # noqa: the observer itself could not be set up (a constructor keyword it has no value for, ...)
+            rep.broken.append("argument-effect observer: %s: %s" % (type(e).__name__, str(e)[:300]))
+
     # ---- isolation suite -------------------------------------------------------------------------
     hterms, hcases, hfail = [], [], []
     hd = {"histories": 0, "ops": 0, "op_kinds": {}, "raised_ops": 0, "max_conns": 0, "oracle_only_histories": 0}
@@ -1197,7 +1252,10 @@ def run(rep):
                                             "unknown platforms): observed, compared with the model, not judged")
     rep.rule = ("factory cases = (Scrapli|AsyncScrapli, platform in 5 core / 2 real + 3 synthetic community platforms with variants / unknown names, "
                 "variant, ordered kwargs drawn per parameter from pools that contain False, 0, 0.0, '', [], {} and None) : corpus + every parameter x "
-                "every pool value alone + random subsets (sizes 0..all) + a malformed stream (wrong types, unknown transports, stray kwargs); "
+                "every pool value alone + random subsets (sizes 0..all) + a malformed stream (wrong types, unknown transports, stray kwargs) + "
+                "a spelling stream (core transport names in other case / padded, both factories); "
+                "argument-effect scenarios = (core driver class, direct | factory, base transport of its stack, keywords from the signature with "
+                "distinctive values: each alone, a random pair, all together) + spelled transport names on both routes; "
                 "histories = random interleavings of creating connections through both factories and mutating one of them (register a session, add a "
                 "user-built level without not_contains, set a pattern, in-place append / extend / += on a level's not_contains and on "
                 "failed_when_contains; half of the level edits aim at a level created at run time on that connection); "
@@ -1415,6 +1473,8 @@ def replay(path):
             print("  FAIL:", f)
         print("property FAILS on this input" if fails else "property holds on this input")
         return 1 if fails else 0
+    if r.get("suite") == "argeffect" and r.get("case"):
+        return A.replay(w, r["case"])
     if r.get("suite") == "factory-defs" and r.get("case"):
         before = snap_world(w)
         res = run_factory(w, r["case"])
@@ -1476,12 +1536,27 @@ MANIFEST = {
             "the model's (class, kwargs) and built fields vs the real factory (recorded at the driver's __init__) over all single-argument cases, "
             "random subsets and a malformed stream, and the model heap vs the real tables after random histories. Independent oracles on the real "
             "code (observed, bounded by the generators): attribute-wise comparison (callables and user objects by identity) of factory-built vs "
-            "directly built drivers, literal read-back of every supplied argument, snapshots and identity graph (dict, PrivilegeLevel, not_contains, "
+            "directly built drivers, literal read-back of every supplied argument, sync/asyncio stack of driver vs transport, snapshots and identity graph (dict, PrivilegeLevel, not_contains, "
             "failed_when_contains objects, named by owner and level) of definitions and all connections after every op: an object held by two "
             "connections or by a connection and a definition fails the property; objects shared among the definitions alone or held twice by one "
             "connection break the tie to Heap.v (init_ok / deepcopy allocate one object per level) without a verdict. History ops beyond the "
             "model's vocabulary are mapped onto it: a user-built level added without not_contains = Register, extend / += = a run of AppendNC / "
-            "AppendFWC. ORACLE-ONLY (harness/c18_iso.py, not modelled beyond the "
+            "AppendFWC. ORACLE-ONLY (harness/c18_args.py, no model behind it; Factory.v stops at the keyword dictionary the driver class "
+            "receives and the fields of GETTERS): the ARGUMENT-EFFECT observer — for every keyword in the signature of each of the 10 core "
+            "driver classes, by direct construction and through Scrapli / AsyncScrapli, over base transports of the class's own stack (system, "
+            "telnet, paramiko; asynctelnet, asyncssh), a distinctive well-typed value is supplied, each keyword alone, a random pair, and all "
+            "together; the built object is flattened into slots (driver attributes, channel args, transport args, plugin transport args, "
+            "loggers, channel, transport) and compared with the same construction without the keywords: the documented slot(s) of the keyword "
+            "hold the value (the three auth patterns also as the compiled pattern the channel searches for) and every slot that differs from "
+            "the baseline is named after a supplied keyword (plus documented side effects: transport -> transport object / plugin args / "
+            "default port, privilege_levels -> prompt pattern / priv graph, logging_uid -> log extras; ssh files are not read back on telnet "
+            "transports, which ignore them by documentation). The random factory cases additionally read the three **kwargs-only auth "
+            "patterns back from the channel arguments (own field holds it, a field not supplied never holds another's value). "
+            "TRANSPORT-NAME SPELLINGS (case variants, padded, camel case of the six core names) run on both routes and both stacks (argeffect "
+            "suite) and as a stream of the factory suite (these also go through the model: an unknown name raises ScrapliTransportPluginError); "
+            "oracle, applied to every factory-built and directly built object of every stream: the driver's stack (open is a coroutine function "
+            "or not) equals its transport's; a spelled name given alone is rejected with a scrapli error or yields a consistent object. "
+            "ORACLE-ONLY (harness/c18_iso.py, not modelled beyond the "
             "theorem above): that the real connection's answers ARE a function of its own tables. Scenarios interleave constructing several "
             "connections of one platform (5 core + the scrapli community network platform, sync and asyncio, sometimes a second platform), mutating "
             "one (register differently named sessions / sessions agreeing in six characters, add a level under another name with an existing "
